@@ -303,8 +303,8 @@ package frugal
 //@   ensures result == nil ==> ncalls("thrift.TStruct.Read") == 1
 //@   ensures result == nil ==> callarg("thrift.TStruct.Read", 0, 0) == res && callret("thrift.TStruct.Read", 0, 0) == nil
 //@   ensures result == nil ==> inorder("lib.FProtocol.ReadResponseHeader", "thrift.TProtocol.ReadMessageBegin", "thrift.TStruct.Read", "thrift.TProtocol.ReadMessageEnd")
-//@   ensures ncalls("thrift.TApplicationException.Read") == 1 && callret("thrift.TApplicationException.Read", 0, 0) == nil && ncalls("thrift.TProtocol.ReadMessageEnd") == 1 && callret("thrift.TProtocol.ReadMessageEnd", 0, 0) == nil && atype(error0) == APPLICATION_EXCEPTION_RESPONSE_TOO_LARGE ==> result != nil && implements(result, "thrift.TTransportException") && ttype(result) == TRANSPORT_EXCEPTION_RESPONSE_TOO_LARGE
-//@   ensures ncalls("thrift.TApplicationException.Read") == 1 && callret("thrift.TApplicationException.Read", 0, 0) == nil && ncalls("thrift.TProtocol.ReadMessageEnd") == 1 && callret("thrift.TProtocol.ReadMessageEnd", 0, 0) == nil && atype(error0) != APPLICATION_EXCEPTION_RESPONSE_TOO_LARGE ==> result == error0
+//@   ensures ncalls("thrift.TApplicationException.Read") == 1 && callret("thrift.TApplicationException.Read", 0, 0) == nil && ncalls("thrift.TProtocol.ReadMessageEnd") == 1 && callret("thrift.TProtocol.ReadMessageEnd", 0, 0) == nil && atype(callret("thrift.NewTApplicationException", 0, 0)) == APPLICATION_EXCEPTION_RESPONSE_TOO_LARGE ==> result != nil && implements(result, "thrift.TTransportException") && ttype(result) == TRANSPORT_EXCEPTION_RESPONSE_TOO_LARGE
+//@   ensures ncalls("thrift.TApplicationException.Read") == 1 && callret("thrift.TApplicationException.Read", 0, 0) == nil && ncalls("thrift.TProtocol.ReadMessageEnd") == 1 && callret("thrift.TProtocol.ReadMessageEnd", 0, 0) == nil && atype(callret("thrift.NewTApplicationException", 0, 0)) != APPLICATION_EXCEPTION_RESPONSE_TOO_LARGE ==> result == callret("thrift.NewTApplicationException", 0, 0)
 //@   modifies *
 
 //@ func lib.FBaseProcessorFunction.trapError(f, ctx, fctx, oprot, method, err)
